@@ -1,14 +1,178 @@
-(** C09 — The tautology prover is a correct decision procedure (property theorems only). *)
+(** C09 — The tautology prover is a correct decision procedure (property theorems only).
+
+    Model: coq/Taut/Model.v (tied to generation/src/proof_generation/tautology.py by the
+    correspondence check harness/c09.py on every run).  [decide ns fuel f]:
+      Ok (Some true)  = prove_tautology returns (True, proof of f)
+      Ok (Some false) = prove_tautology returns (False, proof of neg f)
+      Ok None         = prove_tautology returns None (declines)
+      Err             = AssertionError;   Fuel = the explicit fuel ran out (excluded in the statements)
+    [ns] = g_resolution_no_shadow: [true] is the repaired loop (current tree), [false] the pinned loop (D6). *)
 From Coq Require Import ZArith NArith List Bool.
-From Pi2 Require Import Taut.Model.
+From Pi2 Require Import Taut.Model Taut.Stages Taut.Sets Taut.Resolution Taut.Complete.
 Import ListNotations.
 
-(** D6 (pinned loop, g_resolution_no_shadow = false): a tautology gets the verdict "inconclusive". *)
+(* ------------------------------------------------------------------------------------------ *)
+(** * 1. every stage returns an equivalent formula in the advertised shape *)
+
+Theorem C09_expand_equiv : forall v f, ktt v (expand f) = tt v f.
+Proof. exact expand_tt. Qed.
+Print Assumptions C09_expand_equiv.
+
+(** to_conj_form: equivalent; result is a constant or an Or/Var tree *)
+Theorem C09_to_conj_form : forall f,
+  (forall v, cf_tt v (to_conj_form f) = tt v f) /\ conj_shape (to_conj_form f).
+Proof. intro f; split; [intro v; apply to_conj_form_sound|apply to_conj_form_shape]. Qed.
+Print Assumptions C09_to_conj_form.
+
+(** propag_neg: total on Or/Var trees, equivalent, negation only on variables *)
+Theorem C09_propag_neg : forall t, is_orform t = true ->
+  exists t', propag_neg t = Some t' /\ (forall v, cf_tt v t' = cf_tt v t) /\ is_nnf t' = true.
+Proof.
+  intros t H. destruct (propag_neg_total t H) as [t' E]. exists t'. split; auto.
+  split; [intro v; exact (proj1 (propag_neg_sound v _ _ E))|exact (proj2 (propag_neg_sound (fun _ => false) _ _ E))].
+Qed.
+Print Assumptions C09_propag_neg.
+Example C09_propag_neg_nonvacuous :
+  propag_neg (COr true (CVar false 0) (COr false (CVar true 1) (CVar false 2)))
+  = Some (CAnd false (CVar true 0) (CAnd false (CVar false 1) (CVar true 2))).
+Proof. reflexivity. Qed.
+
+(** to_cnf: on negation-normal input never raises; any result is equivalent and in CNF *)
+Theorem C09_to_cnf : forall fuel t, is_nnf t = true ->
+  to_cnf fuel t <> Err /\
+  forall t', to_cnf fuel t = Ok t' -> (forall v, cf_tt v t' = cf_tt v t) /\ is_cnf t' = true.
+Proof.
+  intros fuel t H. split; [apply to_cnf_no_err; auto|].
+  intros t' E. split; [intro v; exact (proj1 (to_cnf_sound v _ _ _ E H))|exact (proj2 (to_cnf_sound (fun _ => false) _ _ _ E H))].
+Qed.
+Print Assumptions C09_to_cnf.
+Example C09_to_cnf_nonvacuous :
+  to_cnf 10 (COr false (CAnd false (CVar false 0) (CVar false 1)) (CVar true 2))
+  = Ok (CAnd false (COr false (CVar false 0) (CVar true 2)) (COr false (CVar false 1) (CVar true 2))).
+Proof. reflexivity. Qed.
+
+(** to_clauses: total on CNF, clause list has the same truth table, clauses non-empty, literals non-zero *)
+Theorem C09_to_clauses : forall t, is_cnf t = true ->
+  exists cs, to_clauses t = Some cs /\ clauses_ok cs /\ forall v, clauses_tt v cs = cf_tt v t.
+Proof.
+  intros t H. destruct (to_clauses_sound (fun _ => false) t H) as (cs & E & Hok & _).
+  exists cs. repeat split; try apply Hok; auto.
+  intro v. destruct (to_clauses_sound v t H) as (cs' & E' & _ & Htt). congruence.
+Qed.
+Print Assumptions C09_to_clauses.
+
+(* ------------------------------------------------------------------------------------------ *)
+(** * 2. resolvable / merge: the resolvent is implied by its parents *)
+
+Theorem C09_resolvable_sound : forall v c1 c2 r rs,
+  resolvable c1 c2 = Some (r, rs) -> Forall nz c2 ->
+  clause_tt v c1 = true -> clause_tt v c2 = true -> clause_tt v rs = true.
+Proof. exact resolvable_sound. Qed.
+Print Assumptions C09_resolvable_sound.
+Example C09_resolvable_nonvacuous :
+  resolvable [1; 2]%Z [-1; 3]%Z = Some ((-1)%Z, [2; 3]%Z).
+Proof. reflexivity. Qed.
+
+(** the whole saturation loop (either variant, any fuel) only adds consequences, and answers
+    `True` only if the clause set is unsatisfiable *)
+Theorem C09_resolution_loop_sound : forall ns fuel h l b l' h',
+  resolution_algorithm ns fuel h l = Ok (b, l', h') -> all_nz l ->
+  (b = true -> forall v, ~ sat_all v l) /\ (forall v, sat_all v l -> sat_all v l').
+Proof. exact resolution_algorithm_sound. Qed.
+Print Assumptions C09_resolution_loop_sound.
+
+(* ------------------------------------------------------------------------------------------ *)
+(** * 3. soundness of the verdicts — all formulas, any fuel, both loop variants *)
+
+Theorem C09_decide_sound : forall ns fuel f r,
+  decide ns fuel f = Ok r ->
+  (r = Some true -> tautology f) /\ (r = Some false -> unsat f).
+Proof. exact decide_sound. Qed.
+Print Assumptions C09_decide_sound.
+Example C09_decide_sound_nonvacuous :
+  decide true 100 (FOr (FVar 0) (FNeg (FVar 0))) = Ok (Some true) /\
+  decide true 100 (FAnd (FVar 0) (FNeg (FVar 0))) = Ok (Some false) /\
+  decide true 100 (FVar 0) = Ok None.
+Proof. repeat split; vm_compute; reflexivity. Qed.
+
+(* ------------------------------------------------------------------------------------------ *)
+(** * 4. completeness (repaired loop, g_resolution_no_shadow = true) *)
+
+(** saturation invariant: when the loop answers `False`, every pair of the final list has been resolved
+    (closed under [resolvable]), all clauses are non-trivial with non-zero literals, the empty clause is
+    absent and the initial list is included.  This is the lemma that is FALSE for the pinned loop. *)
+Theorem C09_saturate_closed : forall fuel h l l' h',
+  resolution_algorithm true fuel h l = Ok (false, l', h') ->
+  NoDup l -> (forall c, hint_mem c h = true <-> In c l) -> Forall good l -> ~ In [] l ->
+  pairwise_closed l' /\ Forall good l' /\ ~ In [] l' /\ incl l l'.
+Proof. exact saturate_closed. Qed.
+Print Assumptions C09_saturate_closed.
+Example C09_saturate_closed_nonvacuous :
+  resolution_algorithm true 100 [([1; 2]%Z, HIdx 0); ([-1; 2]%Z, HIdx 1)] [[1; 2]%Z; [-1; 2]%Z]
+  = Ok (false, [[1; 2]%Z; [-1; 2]%Z; [2]%Z],
+        [([1; 2]%Z, HIdx 0); ([-1; 2]%Z, HIdx 1); ([2]%Z, HRes [-1; 2]%Z [1; 2]%Z 1%Z)]).
+Proof. vm_compute. reflexivity. Qed.
+
+(** a resolution-closed set of non-trivial clauses without the empty clause is satisfiable
+    (variable elimination; resolvents with two clashes are tautologies, which is why the
+    `len(common) != 1` skip is harmless) *)
+Theorem C09_resolution_complete : forall S,
+  pairwise_closed S -> Forall good S -> ~ In [] S -> exists v, sat_all v S.
+Proof.
+  intros S Hpc Hg Hne.
+  assert (Hnt : forall c, In c S -> nontriv c).
+  { intros c Hc. apply good_nontriv. rewrite Forall_forall in Hg. auto. }
+  apply (resolution_complete (all_atoms S) S); auto.
+  - apply all_atoms_pos. intros c x Hc Hx E. subst. exact (Hnt c Hc 0%Z Hx Hx).
+  - apply all_atoms_in.
+  - apply pairwise_sem_closed; auto.
+Qed.
+Print Assumptions C09_resolution_complete.
+
+(** the procedure never raises *)
+Theorem C09_decide_no_err : forall ns fuel f, decide ns fuel f <> Err.
+Proof. exact decide_no_err. Qed.
+Print Assumptions C09_decide_no_err.
+
+(** C09_decide: whenever the fuel suffices (result is not [Fuel]; [Err] is impossible), the verdict is
+    exactly the semantic class of the formula — for ALL formulas *)
+Theorem C09_decide : forall fuel f r,
+  decide true fuel f = Ok r ->
+  (r = Some true <-> tautology f) /\ (r = Some false <-> unsat f) /\ (r = None <-> contingent f).
+Proof. exact decide_correct. Qed.
+Print Assumptions C09_decide.
+Example C09_decide_nonvacuous :
+  decide true 1000 d6_witness = Ok (Some true) /\
+  decide true 1000 (FEquiv (FVar 0) (FVar 1)) = Ok None /\
+  decide true 1000 (FAnd (FEquiv (FVar 0) (FVar 1)) (FEquiv (FVar 0) (FNeg (FVar 1)))) = Ok (Some false).
+Proof. repeat split; vm_compute; reflexivity. Qed.
+
+(* ------------------------------------------------------------------------------------------ *)
+(** * 5. D6 (pinned loop, g_resolution_no_shadow = false): a tautology gets the verdict "inconclusive" *)
+
 Theorem C09_refuted_shadow :
-  exists f, (forall v, tt v f = true) /\ decide false 5000 f = Ok None /\ decide true 5000 f = Ok (Some true).
+  exists f, tautology f /\ decide false 5000 f = Ok None /\ decide true 5000 f = Ok (Some true).
 Proof.
   exists d6_witness. split.
   - intro v. unfold d6_witness. cbn. destruct (v 0%N), (v 1%N); reflexivity.
   - split; vm_compute; reflexivity.
 Qed.
 Print Assumptions C09_refuted_shadow.
+
+(** the saturation invariant itself is refuted for the pinned loop: it answers `False` (inconclusive)
+    on an unsatisfiable clause list, leaving the pair ({-1}, {1}) unresolved *)
+Theorem C09_saturate_refuted_shadow :
+  exists cs l h,
+    start_resolution false 1000 cs = Ok (None, l, h) /\ clauses_ok cs /\
+    (forall v, clauses_tt v cs = false) /\
+    In [-1]%Z l /\ In [1]%Z l /\ resolvable [-1]%Z [1]%Z = Some (1%Z, []) /\ ~ In [] l.
+Proof.
+  eexists [[-2; -1; -2]; [-1]; [1]]%Z, _, _. split; [vm_compute; reflexivity|].
+  split.
+  { split; [discriminate|]. repeat constructor; unfold nz; try discriminate. }
+  split.
+  { intro v. cbn. destruct (v 0%N), (v 1%N); reflexivity. }
+  cbn. repeat split; auto 10.
+  intros [H|[H|[H|[H|[]]]]]; discriminate.
+Qed.
+Print Assumptions C09_saturate_refuted_shadow.
